@@ -110,6 +110,14 @@ func runC08(r *Runner, g *Gen, tier string) string {
 				r.Do(codecOp("build", cfg, Struct(&FieldDef{Name: "A", Exported: true, Plenc: "1,proto", T: t}), "", A("5")), true, "build.nested-slices")
 				r.Do(codecOp("build", cfg, Struct(F("M", "1", Map(B("str"), t))), "", A("5")), true, "build.nested-slices")
 			}
+			// maps whose values are slices: in the repeated form an entry would need one value field per element
+			for _, mv := range []*TyDef{Slice(inner), Ptr(Slice(inner)), Ptr(Ptr(Slice(inner)))} {
+				m := Map(B(g.r.Pick("str", "int", "bool")), mv)
+				r.Do(codecOp("build", cfg, m, "", A("5")), true, "build.map-of-slices")
+				r.Do(codecOp("build", cfg, Struct(F("M", "1", m)), "", A("5")), true, "build.map-of-slices")
+				r.Do(codecOp("build", cfg, Struct(&FieldDef{Name: "M", Exported: true, Plenc: "1,proto", T: m}), "", A("5")), true, "build.map-of-slices")
+				r.Do(codecOp("build", cfg, Slice(Struct(F("M", "1", m))), "", A("5")), true, "build.map-of-slices")
+			}
 		}
 	}
 	// multi-step sequences on one instance: a recursive definition whose construction
